@@ -3,7 +3,7 @@ CONSTANTS
   Readers = {0, 1, 2, 3, 4, 5, 6, 7}
   Versions = {"A", "B"}
   MaxWrites = 100000000
-  Probes = 3
+  Probes = 5
 CONSTRAINT HW
 INVARIANTS ReaderSingleVersion
 POSTCONDITION Accepted
